@@ -47,7 +47,8 @@ Definition corr_legacy (c : case) : bool := c_done c && obs_eqb (run_model (c_in
 
 Definition spec_in (i : run_in) (o : run_obs) : bool :=
   spec_ok (ri_enc i) (stream_bytes (ri_out i)) (stream_bytes (ri_err i)) (to_req (ri_hide i))
-          (ri_async i) (ri_out_given i) (ri_err_given i) (ri_pty i) (ri_out_mirror i) (ri_err_mirror i)
+          (ri_async i) (ri_out_given i) (ri_err_given i)
+          (pty_in_effect (ri_pty i) (ri_stdin_fileno i) (ri_fallback i)) (ri_out_mirror i) (ri_err_mirror i)
           (ro_stdout o) (ro_stderr o) (ro_out_stream o) (ro_err_stream o).
 
 Definition spec (c : case) : bool := c_done c && c_silent c && spec_in (c_in c) (c_obs c).
